@@ -47,6 +47,23 @@ pub fn run(args: &[Sexp]) -> String {
     match op {
         "iter" => show_list(parse_fd(&args[1]).iter()),
         "iter_rev" => show_list(parse_fd(&args[1]).iter().rev()),
+        // the consuming iterator: forwards, backwards, and alternately from both ends
+        "into_iter" => show_list(parse_fd(&args[1]).into_iter()),
+        "into_rev" => show_list(parse_fd(&args[1]).into_iter().rev()),
+        "into_alt" => {
+            let mut it = parse_fd(&args[1]).into_iter();
+            let mut out: Vec<isize> = vec![];
+            let mut front = true;
+            loop {
+                let x = if front { it.next() } else { it.next_back() };
+                match x {
+                    Some(v) => out.push(v),
+                    None => break,
+                }
+                front = !front;
+            }
+            show_list(out.into_iter())
+        }
         "min" => parse_fd(&args[1]).min().to_string(),
         "max" => parse_fd(&args[1]).max().to_string(),
         "is_singleton" => parse_fd(&args[1]).is_singleton().to_string(),
